@@ -44,13 +44,37 @@ def gen_unix(rng, n, tier):
             cases.append({'s': d * 86400 + off})
     for _ in range(n // 10):
         cases.append({'s': rng.randrange(0, 2 ** 33)})      # far future (year ~2242): no upper bound in the theorem
+    # the machine's local time zone is not an input of the conversion: instants around year ends, month ends and day ends under local zones east and west of Greenwich
+    for _ in range(n // 8):
+        d = rng.choice(sp)
+        cases.append({'s': d * 86400 + rng.choice([0, 1800, 3 * 3600, 86399, 86400 - 1800, 86400 - 5 * 3600, 43200, rng.randrange(86400)]),
+                      'tz': rng.choice(['AAA-9', 'BBB+5', 'CCC-1', 'DDD+11', 'EEE-13', 'CET-1CEST,M3.5.0,M10.5.0/3'])})
     return cases
+
+
+def under_tz(case, fn):
+    """the conversion run in a process whose local time zone is case['tz'] (a POSIX TZ string): the result is a UTC calendar date whatever the machine's zone"""
+    import os, time
+    if not case.get('tz'):
+        return fn()
+    old = os.environ.get('TZ')
+    os.environ['TZ'] = case['tz']; time.tzset()
+    try:
+        return fn()
+    finally:
+        if old is None:
+            os.environ.pop('TZ', None)
+        else:
+            os.environ['TZ'] = old
+        time.tzset()
 
 
 def run_unix(case):
     from tracklib.core import ObsTime
-    t = ObsTime.readUnixTime(case['s'])
-    return {'f': fields(t), 'abs': t.toAbsTime()}
+    def go():
+        t = ObsTime.readUnixTime(case['s'])
+        return {'f': fields(t), 'abs': t.toAbsTime()}
+    return under_tz(case, go)
 
 
 def coq_unix(case, obs):
@@ -96,13 +120,17 @@ def gen_frac(rng, n, tier):
         ms = rng.choice([0, 1, 999, 500, 250, rng.randrange(1000)])
         sub = rng.choice([0, 0, 0, 0.0004, 0.0006, 0.00096, 0.00049])          # content below the millisecond (interpolated instants, offsets such as 0.9996 s)
         cases.append({'x': float(s) + ms / 1000.0 + sub, 's': s, 'ms': ms})
+        if rng.random() < 0.15:
+            cases[-1]['tz'] = rng.choice(['AAA-9', 'BBB+5', 'EEE-13'])
     return cases
 
 
 def run_frac(case):
     from tracklib.core import ObsTime
-    t = ObsTime.readUnixTime(case['x'])
-    return {'f': fields(t), 'abs': t.toAbsTime()}
+    def go():
+        t = ObsTime.readUnixTime(case['x'])
+        return {'f': fields(t), 'abs': t.toAbsTime()}
+    return under_tz(case, go)
 
 
 def coq_frac(case, obs):
@@ -170,6 +198,8 @@ def gen_ops(rng, n, tier):
         else:
             b = rand_date(rng)
         cases.append({'a': a, 'b': b, 'edit': rng.choice([None, None, 'fields', 'copy']), 'zones': rng.choice([[0, 0], [0, 0], [2, 0], [-3, 2], [1, 1]]), 'addms': rng.random() < 0.4, 'n': rng.choice([2, 5, 30, -3, -20, 0, 1, 59, 60, 3600, 86400, 86399, 31536000, -1, -86400, rng.randint(-10 ** 7, 10 ** 8)])})
+        if rng.random() < 0.15:
+            cases[-1]['tz'] = rng.choice(['AAA-9', 'BBB+5', 'EEE-13'])
     return cases
 
 
@@ -178,6 +208,10 @@ def to_secs(f):
 
 
 def run_ops(case):
+    return under_tz(case, lambda: run_ops_(case))
+
+
+def run_ops_(case):
     from tracklib.core import ObsTime
     za, zb = case.get('zones', [0, 0])            # a time-zone label on the timestamp: the calendar fields are what is converted, compared and shifted
     a = ObsTime(*case['a'], za); b = ObsTime(*case['b'], zb)
